@@ -6,7 +6,8 @@ open PwVerif.CacheTree (T Src K KidK KCfg Sem St)
 
 /-! Driver for C05.
 Node level: `beh v:kind …`, then `set v | run | submit | complete | clearfailed | cancel | drop | resetrunning`;
-every op prints `R …` (the tree as it is) and `S …` (proposed discipline), cached and uncached twin each.
+every op prints `R …` (/repo before b54ba0f), `S …` (after b54ba0f) and `N …` (/repo now: + f3b0474), cached and
+uncached twin each.
 Composite level: `tleaf | tcomp | tsetin | tremove | treplace` at a path, `trun` prints, for the current key (`Tcur`)
 and the proposed key (`Tprop`): hit or miss, what the cached composite and its cache-free twin return, and the key. -/
 
@@ -16,12 +17,14 @@ structure DSt where
   ru : N   -- current tree, uncached
   sc : N   -- proposed, cached
   su : N   -- proposed, uncached
+  nc : N   -- now, cached
+  nu : N   -- now, uncached
   cur : St String
   prop : St String
 
 def St0 : St String := { vals := [], kids := [], outs := [], cache := none }
 def DSt.init : DSt :=
-  { beh := [], rc := N.init, ru := N.init, sc := N.init, su := N.init, cur := St0, prop := St0 }
+  { beh := [], rc := N.init, ru := N.init, sc := N.init, su := N.init, nc := N.init, nu := N.init, cur := St0, prop := St0 }
 
 def showR : R → String
   | .ret none => "ret:ND"
@@ -39,9 +42,12 @@ def apply (s : DSt) (op : Op) : DSt × List String :=
   let (ru, r2) := step Cfg.repaired beh false s.ru op
   let (sc, r3) := step Cfg.proposed beh true s.sc op
   let (su, r4) := step Cfg.proposed beh false s.su op
-  ({ s with rc, ru, sc, su },
+  let (nc, r5) := step Cfg.now beh true s.nc op
+  let (nu, r6) := step Cfg.now beh false s.nu op
+  ({ s with rc, ru, sc, su, nc, nu },
    [s!"R c={showR r1} u={showR r2} vc={showVis rc} vu={showVis ru} q={rc.jobs.length}/{ru.jobs.length}",
-    s!"S c={showR r3} u={showR r4} vc={showVis sc} vu={showVis su} q={sc.jobs.length}/{su.jobs.length}"])
+    s!"S c={showR r3} u={showR r4} vc={showVis sc} vu={showVis su} q={sc.jobs.length}/{su.jobs.length}",
+    s!"N c={showR r5} u={showR r6} vc={showVis nc} vu={showVis nu} q={nc.jobs.length}/{nu.jobs.length}"])
 
 def parseBeh (w : String) : Option (Nat × Outcome) :=
   match w.splitOn ":" with
